@@ -1012,10 +1012,22 @@ def gen_lvalue(node, code, codegen):
 
     if node.is_const:
         # this is a constant declared in a const statement
+        try:
+            value = node.eval()
+        except (OverflowError, ZeroDivisionError, ValueError):
+            # The value of the constant cannot be computed (CONST a =
+            # 30000 + 30000 : CONST b = a + 1). That is a run-time error
+            # of the statement that uses it: emit the code of the value
+            # expression and let the machine fail.
+            const = node.parent_routine.local_consts.get(node.base_var)
+            if const is None:
+                const = codegen.compilation.global_consts[node.base_var]
+            codegen.gen_code_for_node(const, code)
+            return
         if node.type == expr.Type.STRING:
-            code.add(('push$', f'"{node.eval()}"'))
+            code.add(('push$', f'"{value}"'))
         else:
-            code.add((f'push{node.type.type_char}', node.eval()))
+            code.add((f'push{node.type.type_char}', value))
         return
 
     if node.implicit_decl and node.implicit_decl.type.is_array:
